@@ -496,7 +496,9 @@ func (r *Rig) drain() [][]byte {
 				r.add(Entry{Kind: "closed"})
 				return frames
 			}
-			frames = append(frames, b)
+			if len(b) > 0 { // (empty frames are FlushBusy's fillers)
+				frames = append(frames, b)
+			}
 		default:
 			return frames
 		}
@@ -589,6 +591,31 @@ func (r *Rig) Flush() (StepResult, bool) {
 	return r.end(from, pan), took
 }
 
+// FlushBusy honours a pending messageEvent at a moment when the connection's writer cannot take
+// another frame (on a real connection the outbound channel is unbuffered and the writer is inside
+// a socket write): the channel is filled up with empty filler frames for the duration of the call.
+func (r *Rig) FlushBusy() (StepResult, bool) {
+	from := r.begin()
+	took := false
+	pan := r.guard(func() {
+		if r.V.TakeMessageEvent() {
+			took = true
+			if r.out != nil && !r.ExternalDrain {
+			fill:
+				for {
+					select {
+					case r.out <- []byte{}:
+					default:
+						break fill
+					}
+				}
+			}
+			r.V.SendAppMessages()
+		}
+	})
+	return r.end(from, pan), took
+}
+
 // Send submits an application message (the SendToTarget path). The error is the caller's answer.
 func (r *Rig) Send(m *quickfix.Message) (StepResult, error) {
 	from := r.begin()
@@ -601,6 +628,14 @@ func (r *Rig) Send(m *quickfix.Message) (StepResult, error) {
 func (r *Rig) Disconnect() StepResult {
 	from := r.begin()
 	pan := r.guard(func() { r.V.Disconnected() })
+	return r.end(from, pan)
+}
+
+// Operator is an operator's call on the session's store (the package-level SetNext... functions go
+// to the same store object) as one recorded step.
+func (r *Rig) Operator(f func(quickfix.MessageStore)) StepResult {
+	from := r.begin()
+	pan := r.guard(func() { f(r.V.Store()) })
 	return r.end(from, pan)
 }
 
